@@ -36,6 +36,11 @@ func newNamer() *namer {
 		unique:                  make(map[string]int),
 		keywords:                make(map[string]struct{}),
 		keywordsCaseInsensitive: make(map[string]struct{}),
+		// The writer names its wrapped constructors, zero values and their array
+		// typedefs Construct<type>, ZeroValue<type>, ret_Construct<type>,
+		// ret_ZeroValue<type> without asking the namer; a user name of that form
+		// (`const ret_Constructarray4_int2: i32`) would redefine one of them.
+		reservedPrefixes: []string{"Construct", "ZeroValue", "ret_Construct", "ret_ZeroValue"},
 	}
 
 	// Register HLSL keywords (case-sensitive, matching Rust naga's KeywordSet)
